@@ -66,6 +66,7 @@ fn check(prop: &str, tier: Tier) -> i32 {
         "C10" => props::ide_sweep::run(props::ide_sweep::Which::C10, tier),
         "C20" => props::ide_sweep::run(props::ide_sweep::Which::C20, tier),
         "C15" => props::messages::run(tier),
+        "C16" => props::race::run(tier),
         "C17" => props::layout::run(tier),
         "C19" => props::tokens::run(tier),
         "C11" => props::history::run(tier),
@@ -100,6 +101,7 @@ fn replay(path: &str) -> i32 {
         "C10" => props::ide_sweep::replay(props::ide_sweep::Which::C10, w),
         "C20" => props::ide_sweep::replay(props::ide_sweep::Which::C20, w),
         "C15" => props::messages::replay(w),
+        "C16" => props::race::replay(w),
         "C17" => props::layout::replay(w),
         "C19" => props::tokens::replay(w),
         "C11" => props::history::replay(w),
